@@ -33,6 +33,9 @@ def run(res, tier, build_ok):
         state["seen"].append(bytes(cdb))
         if len(datain):
             datain[0] = state["byte0"]
+            by, mask = state.get("extra", (0, 0))
+            if by and len(datain) > by:
+                datain[by] |= mask
 
     sgio.BACKEND = lambda f, cdb, do, di: (fill(cdb, di), (0, None))[1]
     iscsi.BACKEND = lambda lun, task, do, di: (fill(task.cdb, di), (0, None))[1]
@@ -48,6 +51,33 @@ def run(res, tier, build_ok):
         return "%s/%s" % (name_of.get(id(dev.opcodes), "?"), getattr(dev, "devicetype", None))
 
     reqs = []
+    # ---- the selection depends on the peripheral device type alone: every other bit of the first eight bytes of the
+    #      standard INQUIRY data set in turn (RMB, version, MCHNGR, MULTIP, ...), every device type
+    for kind in ("sgio", "iscsi"):
+        for t in range(32):
+            state["byte0"], state["extra"] = t, (0, 0)
+            try:
+                dev = new_dev(kind, 300 + t)
+                SCSI(dev)
+                plain = observe(dev)
+            except Exception as e:
+                plain = "raises " + type(e).__name__
+            for by in range(1, 8):
+                for bit in range(8):
+                    state["extra"] = (by, 1 << bit)
+                    try:
+                        dev = new_dev(kind, 300 + t)
+                        SCSI(dev)
+                        got = observe(dev)
+                    except Exception as e:
+                        got = "raises " + type(e).__name__
+                    res.count("attach with one further INQUIRY bit set")
+                    if got != plain:
+                        res.violation("attach depends on inquiry byte %d" % by,
+                                      "device type %02Xh over %s: with bit %d of INQUIRY byte %d set the facade selects %s, without it %s" % (t, kind, bit, by, got, plain),
+                                      {"transport": kind, "devicetype": t, "byte": by, "bit": bit, "selected": got, "plain": plain})
+            res.case(("attach-bits", kind, t), {"transport": kind, "devicetype": t, "selected": plain})
+    state["extra"] = (0, 0)
     # ---- all 256 first bytes, both transports, fresh device each
     for kind in ("sgio", "iscsi"):
         for b in range(256):
